@@ -477,10 +477,12 @@ def c156(ctx):
     R = "C15.6"
     ctx.declare(R, "a present value is always written: every FieldPackHelper of a leaf type writes the tag on every path of field_pack and counts it "
                    "on every path of field_pack_sz; only the Option / Vec / Box wrappers decide presence")
-    n = 0
+    n = derived = 0
     for f in sorted(ctx.prog.fns.values(), key=lambda f: f.key):
-        if f.crate != "prototk" or not (f.impl_trait or "").startswith("prototk::FieldPackHelper") or f.name not in ("field_pack", "field_pack_sz"):
+        if not (f.impl_trait or "").startswith("prototk::FieldPackHelper") or f.name not in ("field_pack", "field_pack_sz"):
             continue
+        if f.crate != "prototk":
+            derived += 1        # the helper that #[derive(Message)] generates for a message nested in another one
         self_ty = f.impl_self or ""
         wrapper = re.match(r"^(alloc::boxed::Box<F>|alloc::vec::Vec<F>|core::option::Option<F>|alloc::sync::Arc<F>)$", self_ty)
         if wrapper:
@@ -498,7 +500,8 @@ def c156(ctx):
                   "repeated, optional and enum positions, where absence means something else (the element is dropped, Some becomes None, an enum "
                   "variant packs to nothing)" % (f.name, self_ty, "counting" if f.name == "field_pack_sz" else "writing"),
                   pt=q[-1][1] if q and isinstance(q[-1], tuple) else None, path=q if sp else None)
-    ctx.floor(R, "leaf field packers", n, 36)
+    ctx.floor(R, "leaf field packers", n - derived, 36)
+    ctx.floor(R, "derived nested-message field packers", derived, 20)
 
 
 # ------------------------------------------------------------------------------------------------
